@@ -216,6 +216,56 @@ def oracle_and_corr(ctx):
     return orc, [res]
 
 
+def oracle_long_messages(ctx):
+    """Messages longer than the printers' 2056-byte buffer (single long lines, and multi-line messages of
+    several KiB) under each prefix option set: `Printed bytes` must equal the bytes on stdout and the
+    per-file byte counts plus separators must add up to it; stdout identical with and without -s."""
+    import os
+    rng = e2e.Rng(ctx.seed * 97 + 11)
+    fails, ev = [], 0
+
+    def fail(sig, detail, case):
+        fails.append({'signature': sig, 'detail': detail, 'case': case})
+    for k in range(ctx.q(2, 10)):
+        paths = []
+        for fi in range(2):
+            lines = []
+            t = 1600000000 + rng.below(1000)
+            for i in range(rng.range(6, 14)):
+                t += rng.pick([0, 1, 3])
+                kind = rng.below(4)
+                head = e2e.fmt_ts(t).encode() + b' f%c ' % (97 + fi)
+                if kind == 0:
+                    lines.append(head + b'x' * rng.range(2100, 5000) + b'\n')
+                elif kind == 1:
+                    lines.append(head + b'start\n' + b''.join(b'  cont ' + b'y' * rng.range(60, 120) + b'\n' for _ in range(rng.range(30, 60))))
+                else:
+                    lines.append(head + e2e.text_line(rng, 5, 60, weird=False) + b'\n')
+            p = os.path.join(ctx.work, 'long_%d_%d.log' % (k, fi))
+            open(p, 'wb').write(b''.join(lines))
+            paths.append(p)
+        for extra in ([], ['-n'], ['-u'], ['-u', '-n'], ['-l', '-p'], ['-z=+05:30', '-d=%s'], ['-u', '--separator=@@']):
+            args = ['--color=never', '-t', '+00:00'] + extra + paths
+            rc0, out0, err0, _ = e2e.s4(args)
+            rc1, out1, err1, _ = e2e.s4(args + ['-s'])
+            ev += 2
+            case = {'args': extra, 'files': [os.path.basename(p) for p in paths]}
+            if out0 != out1:
+                fail('summary:stdout-changed-by-summary', f'{len(out0)} vs {len(out1)} bytes', case)
+                continue
+            tot, files = parse_summary(err1)
+            if tot.get('bytes') != len(out1):
+                fail('summary:printed-bytes-mismatch', f'Printed bytes {tot.get("bytes")}, stdout {len(out1)} B (messages longer than the 2056-byte print buffer)', case)
+            nl = out1.count(b'\n') - (out1.count(b'@@') and 0)
+            if tot.get('lines') is not None and tot['lines'] != out1.replace(b'@@', b'').count(b'\n'):
+                fail('summary:printed-lines-mismatch', f'Printed lines {tot["lines"]}, stdout has {out1.count(10)} newlines', case)
+        for p in paths:
+            os.unlink(p)
+    return {'evaluations': ev, 'distinct_nontrivial': ev, 'failures': fails, 'samples': [],
+            'rule': 'two text logs with messages of 2-5 KiB (single lines and 30-60-line messages) x 7 prefix/separator option sets, --color never: '
+                    'Printed bytes == len(stdout), Printed lines == newlines on stdout, stdout unchanged by -s'}
+
+
 def check(ctx):
     prove = core.step_prove(ctx, MODS)
     ok_drv = core.step_drv(ctx)
@@ -223,6 +273,7 @@ def check(ctx):
     orc, corr = (None, [])
     if ok_impl and ok_drv:
         orc, corr = oracle_and_corr(ctx)
+        orc = core.merge_oracles([orc, oracle_long_messages(ctx)])
     return core.decide(ctx, prove, corr, orc, LEVEL_NOTE, ASSUME)
 
 
